@@ -26,6 +26,11 @@ mod stats;
 mod telemetry;
 mod utils;
 
+#[cfg(feature = "verif")]
+pub mod verif {
+    pub use crate::config::verif_quorum_sanity_check as quorum_sanity_check;
+}
+
 use config::instrument_and_load_config;
 use election::{ElectionOutcome, elect_leader};
 use follower::follow;
